@@ -36,6 +36,15 @@ class Hang(BaseException):
     """The library blocked for ever (select(None) / blocking read with nothing to come)."""
 
 
+class StillWaiting(Hang):
+    """Watchdog: the operation is still issuing system calls long after every timeout it was
+    given has elapsed (virtual time / wall clock), or has issued an absurd number of calls.
+    Raised INSIDE the library call so that nothing in the harness grows without bound."""
+
+
+MAX_CALLS = 3000  # the longest legitimate operation issues ~350 intercepted calls
+
+
 class InjectedFault(Exception):
     """The `Exception` kind of injected fault."""
 
@@ -148,6 +157,9 @@ class Recorder:
         self.n = 0
         self.fired = False
         self.in_call = False  # inside a backend primitive (where a real signal may land)
+        self.nmore = 0
+        self.max_calls = MAX_CALLS
+        self.wall_deadline: float | None = None  # real runs: time.monotonic() after which we give up
 
     def _raise(self):
         self.fired = True
@@ -159,6 +171,13 @@ class Recorder:
         """Run backend primitive `fn()`; `log_res(result)` -> result fields of the event."""
         if name in self.quiet:
             return fn()
+        if self.n >= self.max_calls:
+            raise StillWaiting(f"more than {self.max_calls} system calls in one operation")
+        if self.wall_deadline is not None:
+            import time
+
+            if time.monotonic() > self.wall_deadline:
+                raise StillWaiting("still issuing system calls long after every timeout has elapsed (wall clock)")
         self.n += 1
         f = self.fault if self.fault and self.fault["k"] == self.n else None
         if f and f["when"] == "before":
@@ -231,7 +250,8 @@ class Recorder:
                          lambda r: {"win": {"cols": r[0], "rows": r[1], "xpx": 0, "ypx": 0}})
 
     def more(self, data) -> bool:
-        idx = sum(1 for e in self.events if e["call"] == "more") + 1
+        self.nmore += 1
+        idx = self.nmore
         return self.call("more", lambda: self.backend.more(bytes(data), idx),
                          {"data": list(bytes(data)), "a": idx}, lambda r: {"ready": bool(r)})
 
@@ -341,10 +361,18 @@ class VirtualTty:
         self.pred = pred or {"stop": 0, "raiseAt": 0}
         self.wlog: list[bytes] = []
         self.tw = 0
+        self.time_limit: int | None = None  # ticks; beyond it the operation is "still waiting"
 
     @property
     def attr(self) -> dict:
         return self.codec.to_record(self.raw)
+
+    def _advance(self, to: int):
+        if self.time_limit is not None and to > self.time_limit:
+            self.now = self.time_limit
+            raise StillWaiting(f"still waiting at virtual tick {to}: every timeout given elapsed long ago "
+                               f"(watchdog at {self.time_limit} ticks)")
+        self.now = to
 
     def _deliver(self):
         due = [b for b in self.pend if b[0] <= self.now]
@@ -408,13 +436,13 @@ class VirtualTty:
         if not self.pend:
             if t is None:
                 raise Hang("select(None) with nothing to come")
-            self.now += ticks
+            self._advance(self.now + ticks)
             return ([], [], [])
         nxt = min(b[0] for b in self.pend)
         if t is not None and nxt > self.now + ticks:
-            self.now += ticks
+            self._advance(self.now + ticks)
             return ([], [], [])
-        self.now = nxt
+        self._advance(nxt)
         self._deliver()
         return (list(r), [], [])
 
@@ -425,7 +453,7 @@ class VirtualTty:
         while len(self.inq) < need:
             if not self.pend:
                 raise Hang("blocking read with nothing to come")
-            self.now = min(b[0] for b in self.pend)
+            self._advance(min(b[0] for b in self.pend))
             self._deliver()
         out = bytes(self.inq[:n])
         del self.inq[:n]
@@ -545,6 +573,9 @@ def run_virtual(scn: dict, fault: dict | None = None) -> dict:
                      scn.get("pred"))
     op = dict(NO_OP, **scn["opx"]) if "opx" in scn else dict(NO_OP, name=scn["op"])
     rec = Recorder(dev, codec, fault, quiet=("termsize",) if op["name"] == "draw" else ())
+    # watchdog: an operation sends at most two queries, each bounded by its timeout
+    longest = max([scn["tmo"], op["tmo"]] + [b["delay"] for s in scn["sched"] for b in s])
+    dev.time_limit = 8 * longest + 64
     install(rec, FAKE_FD)
     reset_library(scn["enabled"], scn["swap"], scn["tmo"])
     old_stdout = sys.stdout
@@ -556,7 +587,7 @@ def run_virtual(scn: dict, fault: dict | None = None) -> dict:
         final = run_op(rec, op)
     except Hang as h:
         hang = str(h)
-        final = {"status": "hung", "kind": "Hang", "rb": [], "rnone": True, "val": dict(NOVAL)}
+        final = {"status": "hung", "kind": type(h).__name__, "rb": [], "rnone": True, "val": dict(NOVAL)}
     finally:
         sys.stdout = old_stdout
     final.update(residual=list(dev.residual()), attr=dev.attr, elapsed=dev.now, slack=0,
